@@ -61,6 +61,11 @@ META = {
                      "ArraySlicer(domain_indices=i) @ M == M[i] (gather), ArraySlicer(range_indices=i) is its transpose (C36)"],
     "assumptions": ["inverter(A) returns the exact two-sided inverse of A", "assemble() returns (Jacobian rows, -residual) for one equation with all columns (C06)",
                     "projection_to sorts and does not permute (C05)", "np.delete(all_idx, idx) with all_idx = arange(n) is the complement of idx"],
+    "accepted_forms": ["local aliases of self attributes (cache = self._secondary_block_permutation, data = self._Schur_complement) are substituted first",
+                       "block loops guarded by `if name in X:` or `if name not in X: continue`; filtered/unfiltered branches in either polarity",
+                       "stacking / column splitting inline or in one private (static) helper whose straight-line body is interpreted with the arguments bound",
+                       "unpacking of the stored tuple by position, by index, or through an alias; .T or .transpose(); * or @; any algebraically equal regrouping",
+                       "cache writes by item assignment or update({...}) / update(k=v); cache test in either polarity with the arms swapped"],
     "technique": "branch-free abstract interpretation to non-commutative polynomials (sympy.expand + one inverse axiom as word rewriting); lock-step/shape matching; gather/scatter transpose algebra for the permutation triple",
 }
 MIN_INSTANCES = {"R1": 6, "R2": 20, "R3": 3, "R4": 12}
@@ -171,6 +176,38 @@ class SymEval:
         raise Undecided(f"{self.where}: cannot translate {u(e)[:70]}")
 
 
+def dealias(fn: ast.FunctionDef) -> ast.FunctionDef:
+    """Copy of fn in which every local that is bound exactly once to a plain `self.<attr>` (an alias of mutable state, e.g.
+    `cache = self._secondary_block_permutation`) is replaced by that attribute.  Behaviour preserving: the attribute is
+    never re-bound between the alias definition and its uses in the functions this is applied to (checked: no store to
+    self.<attr> after the alias)."""
+    import copy
+    fn2 = copy.deepcopy(fn)
+    aliases: dict[str, ast.expr] = {}
+    for s in body_nodoc(fn2):
+        if isinstance(s, ast.Assign) and len(s.targets) == 1 and isinstance(s.targets[0], ast.Name) and isinstance(s.value, ast.Attribute) \
+                and isinstance(s.value.value, ast.Name) and s.value.value.id == "self" and len(_stores(fn2, s.targets[0].id)) == 1:
+            attr = s.value.attr
+            rebound = [x for x in walk_local(fn2) if isinstance(x, (ast.Assign, ast.AnnAssign, ast.AugAssign)) and x.lineno > s.lineno
+                       and any(_is_self_attr(t, attr) for t in (x.targets if isinstance(x, ast.Assign) else [x.target]))]
+            if not rebound:
+                aliases[s.targets[0].id] = s.value
+    if not aliases:
+        return fn
+
+    class T(ast.NodeTransformer):
+        def visit_Name(self, n: ast.Name):
+            if n.id in aliases and isinstance(n.ctx, ast.Load):
+                return ast.copy_location(copy.deepcopy(aliases[n.id]), n)
+            return n
+
+    fn2 = T().visit(fn2)
+    fn2.body = [s for s in fn2.body if not (isinstance(s, ast.Assign) and len(s.targets) == 1 and isinstance(s.targets[0], ast.Name)
+                                            and s.targets[0].id in aliases)]
+    ast.fix_missing_locations(fn2)
+    return fn2
+
+
 # ----------------------------------------------------------------------------------------------
 # R2 (first: it determines which lists are primary / secondary)
 # ----------------------------------------------------------------------------------------------
@@ -215,9 +252,21 @@ def _check_lockstep(ctx: Ctx, rel: str, fn: ast.FunctionDef, meths: dict) -> Lis
         raise Undecided(f"{q}: expected two top-level loops appending row blocks, found {len(loops)}")
 
     def guard_role(loop: ast.For) -> tuple[str, ast.If]:
-        ifs = [s for s in loop.body if isinstance(s, ast.If)]
-        if len(ifs) != 1 or len([s for s in loop.body if not isinstance(s, (ast.If, ast.Expr))]) != 0:
-            raise Undecided(f"{q}: loop body is not a single guarded block")
+        body_ = [s for s in loop.body if not (isinstance(s, ast.Expr) and isinstance(s.value, ast.Constant))]
+        g0 = body_[0] if body_ else None
+        if isinstance(g0, ast.If) and len(g0.body) == 1 and isinstance(g0.body[0], ast.Continue) and not g0.orelse and len(body_) > 1 \
+                and isinstance(g0.test, ast.Compare) and len(g0.test.ops) == 1 and isinstance(g0.test.ops[0], (ast.In, ast.NotIn)):
+            # `if <not selected>: continue` followed by the block: same as `if <selected>: <block>`
+            flipped = ast.Compare(left=g0.test.left, ops=[ast.NotIn() if isinstance(g0.test.ops[0], ast.In) else ast.In()],
+                                  comparators=g0.test.comparators)
+            synth = ast.If(test=flipped, body=body_[1:], orelse=[])
+            ast.copy_location(synth, g0)
+            ast.copy_location(flipped, g0.test)
+            ifs = [synth]
+        else:
+            ifs = [s for s in loop.body if isinstance(s, ast.If)]
+            if len(ifs) != 1 or len([s for s in loop.body if not isinstance(s, (ast.If, ast.Expr))]) != 0:
+                raise Undecided(f"{q}: loop body is not a single guarded block")
         t = ifs[0].test
         if not (isinstance(t, ast.Compare) and len(t.ops) == 1 and isinstance(t.ops[0], (ast.In, ast.NotIn)) and u(t.left) == u(loop.target)):
             raise Undecided(f"{q}: loop guard is not a membership test of the loop variable: {u(t)}")
@@ -427,7 +476,7 @@ def _none_guard(par: ast.AST, stmt: ast.stmt, want: str, stop: ast.AST, fn: ast.
 # R1 identity
 # ----------------------------------------------------------------------------------------------
 
-def _check_identity(ctx: Ctx, rel: str, fa: ast.FunctionDef, fe: ast.FunctionDef, L: Lists) -> None:
+def _check_identity(ctx: Ctx, rel: str, fa: ast.FunctionDef, fe: ast.FunctionDef, L: Lists, meths_all: dict) -> None:
     qa, qe = f"{CLS}.{ASM}", f"{CLS}.{EXP}"
     nc = NC()
     pa = _params(fa)
@@ -444,49 +493,113 @@ def _check_identity(ctx: Ctx, rel: str, fa: ast.FunctionDef, fe: ast.FunctionDef
     proj_of: dict[str, ast.expr] = {}   # projection symbol -> argument expression
     list_atoms = {L.A_prim: "A_p", L.b_prim: "b_p", L.A_sec: "A_s", L.b_sec: "b_s"}
     stacked: dict[str, int] = {}
-    packed = None
-    ret = None
-    inv_arg_words = None
-    for s in body_nodoc(fa):
-        if isinstance(s, ast.Return):
-            ret = s
-            continue
-        if isinstance(s, (ast.Assign, ast.AnnAssign)) and s.value is not None:
-            tg = s.targets[0] if isinstance(s, ast.Assign) else s.target
-            v = s.value
-            if isinstance(tg, ast.Attribute) and _is_self_attr(tg, "_Schur_complement"):
-                if not isinstance(v, ast.Tuple):
-                    raise Undecided(f"{qa}: _Schur_complement is not assigned a tuple literal")
-                packed = (s, [ev.ev(x) for x in v.elts])
-                continue
-            if not isinstance(tg, ast.Name):
-                continue
-            try:
-                if isinstance(v, ast.Call) and isinstance(v.func, ast.Attribute) and v.func.attr == "projection_to" and u(v.func.value) == "self" and len(v.args) == 1:
-                    nm = f"R[{u(v.args[0])}]"
-                    proj_of[nm] = v.args[0]
-                    ev.env[tg.id] = ev.atom(nm)
-                elif isinstance(v, ast.Call) and call_name(v) in ("vstack", "concatenate", "hstack", "bmat") and v.args and isinstance(v.args[0], ast.Name) \
-                        and v.args[0].id in list_atoms:
-                    lst = v.args[0].id
-                    is_mat = lst in (L.A_prim, L.A_sec)
-                    if (call_name(v) == "vstack") != is_mat and not (call_name(v) in ("concatenate", "hstack") and not is_mat):
-                        ctx.check("R2", False, rel, qa, s, f"{lst} must be stacked row-wise ({'vstack' if is_mat else 'concatenate'})", construct=u(s))
-                    stacked[lst] = stacked.get(lst, 0) + 1
-                    ev.env[tg.id] = ev.atom(list_atoms[lst])
-                elif isinstance(v, ast.Call) and isinstance(v.func, ast.Name) and v.func.id == inv_param and len(v.args) == 1 and not v.keywords:
-                    arg = ev.ev(v.args[0])
-                    w = nc.words(arg)
-                    if len(w) != 1 or list(w.values())[0] != 1:
-                        raise Undecided(f"{qa}: the inverted matrix is not a single product: {NC.show(w)}")
-                    inv_arg_words = list(w)[0]
-                    nc.rules.append((("INV",) + inv_arg_words, ()))
-                    nc.rules.append((inv_arg_words + ("INV",), ()))
-                    ev.env[tg.id] = ev.atom("INV")
+    state: dict = {"packed": None, "ret": None, "inv_words": None}
+
+    class ListRef:
+        def __init__(self, name: str):
+            self.name = name
+
+    for lst in list_atoms:
+        ev.env[lst] = ListRef(lst)
+
+    def assign_value(e_: SymEval, v: ast.expr, s: ast.stmt, depth: int):
+        """Symbolic value of one right-hand side (may be a python list for tuple-valued helper calls)."""
+        if isinstance(v, ast.Tuple):
+            return [assign_value(e_, x, s, depth) for x in v.elts]
+        if isinstance(v, ast.Call) and isinstance(v.func, ast.Attribute) and v.func.attr == "projection_to" and u(v.func.value) == "self" and len(v.args) == 1 \
+                and depth == 0:
+            nm = f"R[{u(v.args[0])}]"
+            proj_of[nm] = v.args[0]
+            return e_.atom(nm)
+        if isinstance(v, ast.Call) and call_name(v) in ("vstack", "concatenate", "hstack", "bmat") and v.args and isinstance(v.args[0], ast.Name) \
+                and isinstance(e_.env.get(v.args[0].id), ListRef):
+            lst = e_.env[v.args[0].id].name
+            is_mat = lst in (L.A_prim, L.A_sec)
+            if (call_name(v) == "vstack") != is_mat and not (call_name(v) in ("concatenate", "hstack") and not is_mat):
+                ctx.check("R2", False, rel, qa, s, f"{lst} must be stacked row-wise ({'vstack' if is_mat else 'concatenate'})", construct=u(s))
+            stacked[lst] = stacked.get(lst, 0) + 1
+            return e_.atom(list_atoms[lst])
+        if isinstance(v, ast.Call) and isinstance(v.func, ast.Name) and v.func.id == inv_param and len(v.args) == 1 and not v.keywords and depth == 0:
+            arg = e_.ev(v.args[0])
+            w = nc.words(arg)
+            if len(w) != 1 or list(w.values())[0] != 1:
+                raise Undecided(f"{qa}: the inverted matrix is not a single product: {NC.show(w)}")
+            state["inv_words"] = list(w)[0]
+            nc.rules.append((("INV",) + state["inv_words"], ()))
+            nc.rules.append((state["inv_words"] + ("INV",), ()))
+            return e_.atom("INV")
+        if isinstance(v, ast.Call) and isinstance(v.func, ast.Attribute) and isinstance(v.func.value, ast.Name) and v.func.value.id in ("self", CLS) \
+                and v.func.attr.startswith("_") and v.func.attr in meths_all and depth == 0:
+            # one level of private helper: interpret its straight-line body with the arguments bound
+            h = meths_all[v.func.attr]
+            static = any(u(d_).endswith("staticmethod") for d_ in h.decorator_list)
+            hp = [a_.arg for a_ in h.args.args]
+            if not static:
+                hp = hp[1:]
+            sub = SymEval(nc, h, f"{CLS}.{h.name}")
+            sub.transposed = e_.transposed
+            binds = list(zip(hp, v.args)) + [(k_.arg, k_.value) for k_ in v.keywords if k_.arg in hp]
+            for p_, a_ in binds:
+                if isinstance(a_, ast.Name) and isinstance(e_.env.get(a_.id), ListRef):
+                    sub.env[p_] = e_.env[a_.id]
                 else:
-                    ev.env[tg.id] = ev.ev(v)
-            except Undecided:
-                ev.env.pop(tg.id, None)  # opaque: only an error if a formula needs it
+                    try:
+                        sub.env[p_] = e_.ev(a_)
+                    except Undecided:
+                        pass
+            r_ = exec_stmts(body_nodoc(h), sub, 1)
+            if r_ is None:
+                raise Undecided(f"{qa}: helper {h.name} has no straight-line return value")
+            return r_
+        if any(isinstance(n_, ast.Name) and isinstance(e_.env.get(n_.id), ListRef) for n_ in ast.walk(v)):
+            raise Undecided(f"{qa}: unrecognised use of a row-block list in {u(v)[:60]}")
+        return e_.ev(v)
+
+    def exec_stmts(stmts: list, e_: SymEval, depth: int):
+        """Interpret top-level assignments; returns the value of the `return` (list for a tuple) or None."""
+        result = None
+        for s in stmts:
+            if isinstance(s, ast.Return):
+                if depth == 0:
+                    state["ret"] = s
+                if s.value is not None:
+                    try:
+                        result = assign_value(e_, s.value, s, depth)
+                    except Undecided:
+                        if depth == 0:
+                            raise
+                        result = None
+                continue
+            if isinstance(s, (ast.Assign, ast.AnnAssign)) and s.value is not None:
+                tg = s.targets[0] if isinstance(s, ast.Assign) else s.target
+                v = s.value
+                if isinstance(tg, ast.Attribute) and _is_self_attr(tg, "_Schur_complement") and depth == 0:
+                    if not isinstance(v, ast.Tuple):
+                        raise Undecided(f"{qa}: _Schur_complement is not assigned a tuple literal")
+                    state["packed"] = (s, [e_.ev(x) for x in v.elts])
+                    continue
+                names_ = [tg] if isinstance(tg, ast.Name) else (list(tg.elts) if isinstance(tg, ast.Tuple) and all(isinstance(x, ast.Name) for x in tg.elts) else None)
+                if names_ is None:
+                    continue
+                try:
+                    val = assign_value(e_, v, s, depth)
+                    if isinstance(tg, ast.Name):
+                        if isinstance(val, list):
+                            raise Undecided("tuple bound to one name")
+                        e_.env[tg.id] = val
+                    else:
+                        if not isinstance(val, list) or len(val) != len(names_):
+                            raise Undecided("unpacking shape")
+                        for n_, x_ in zip(names_, val):
+                            e_.env[n_.id] = x_
+                except Undecided:
+                    for n_ in names_:
+                        if not isinstance(e_.env.get(n_.id), ListRef):
+                            e_.env.pop(n_.id, None)  # opaque: only an error if a formula needs it
+        return result
+
+    ret_val = exec_stmts(body_nodoc(fa), ev, 0)
+    packed, ret, inv_arg_words = state["packed"], state["ret"], state["inv_words"]
     for lst, nm in list_atoms.items():
         ctx.check("R2", stacked.get(lst, 0) == 1, rel, qa, fa, f"row-block list {lst} ({nm}) is stacked exactly once after the loops",
                   construct=f"stack {lst} x{stacked.get(lst, 0)}")
@@ -494,7 +607,9 @@ def _check_identity(ctx: Ctx, rel: str, fa: ast.FunctionDef, fe: ast.FunctionDef
         raise Undecided(f"{qa}: return is not (S, rhs_S)")
     if packed is None or inv_arg_words is None:
         raise AnchorError(f"{qa}: stored tuple / inverter call not found")
-    S, rhsS = ev.ev(ret.value.elts[0]), ev.ev(ret.value.elts[1])
+    if not (isinstance(ret_val, list) and len(ret_val) == 2):
+        raise Undecided(f"{qa}: returned pair has no symbolic value")
+    S, rhsS = ret_val
 
     # ---- expansion ----
     ee = SymEval(nc, fe, qe)
@@ -740,6 +855,22 @@ def _check_inverter(ctx: Ctx, rel: str, fn: ast.FunctionDef, gen_fn: ast.Functio
                     continue
                 raise Undecided(f"{q}: cache entry {u(s.targets[0].slice)} is not one of the generated arrays")
             key_prov[s.targets[0].slice.value] = prov[u(s.value)]
+    # bulk forms of the same writes: cache.update({...}) / cache.update(k=v, ...)
+    for s in fresh_body:
+        if isinstance(s, ast.Expr) and isinstance(s.value, ast.Call) and isinstance(s.value.func, ast.Attribute) and s.value.func.attr == "update" \
+                and _is_self_attr(s.value.func.value, cache_attr):
+            items = [(k_.arg, k_.value) for k_ in s.value.keywords if k_.arg]
+            if s.value.args and isinstance(s.value.args[0], ast.Dict):
+                items += [(k_.value, v_) for k_, v_ in zip(s.value.args[0].keys, s.value.args[0].values) if isinstance(k_, ast.Constant)]
+            elif s.value.args:
+                raise Undecided(f"{q}: unrecognised bulk cache write {u(s)[:60]}")
+            for k_, v_ in items:
+                if u(v_) in prov:
+                    key_prov[k_] = prov[u(v_)]
+                elif A in names_in(v_) and not (names_in(v_) & set(prov)):
+                    sig_keys.append(k_)
+                else:
+                    raise Undecided(f"{q}: cache entry {k_!r} is not one of the generated arrays")
     cprov: dict[str, int] = {}
     for s in cached_body:
         if isinstance(s, ast.Assign) and isinstance(s.targets[0], ast.Name) and isinstance(s.value, ast.Subscript) \
@@ -962,10 +1093,13 @@ def run(ctx: Ctx) -> None:
         if need not in meths:
             raise AnchorError(f"{ES}:{CLS}.{need} not found")
     mo = ctx.repo.module(MO)
+    meths = dict(meths)
+    for k_ in (ASM, EXP, INV):
+        meths[k_] = dealias(meths[k_])
     L = _check_lockstep(ctx, mod.rel, meths[ASM], meths)
     lists = [L.A_prim, L.b_prim, L.A_sec, L.b_sec]
     if None not in lists and len(set(lists)) == 4:
-        _check_identity(ctx, mod.rel, meths[ASM], meths[EXP], L)
+        _check_identity(ctx, mod.rel, meths[ASM], meths[EXP], L, meths)
     else:
         ctx.note("R1 skipped: the primary/secondary row-block lists could not be told apart (see R2 findings)")
     _check_sets(ctx, mod.rel, meths[ASM])
